@@ -34,7 +34,13 @@ print(p)" 2>/dev/null)
     cp "$SRC/demo${N}_test.go" "$W/repo/$pkg/zz_seed_demo_test.go"
     cp "$SRC/demo${N}_test.go" "$DST/demo_test.go"; echo "$pkg" > "$DST/demo_pkg.txt"
     tname=$(grep -o '^func Test[A-Za-z0-9_]*' "$SRC/demo${N}_test.go" | sed 's/func //' | paste -sd'|')
-    ( cd "$W/repo" && eval "$DEMOENV go test -count=1 -run '^(${tname})\$' ./$pkg/ " ) > "$W/demo.out" 2>&1; rc=$?
+    dtags=$(python3 -c "
+import json,re,sys
+try: m=json.load(open('$SRC/meta${N}.json'))
+except Exception: m={}
+r=re.search(r'-tags[ =]([A-Za-z0-9_,]+)', m.get('demo_cmd',''))
+print('-tags '+r.group(1) if r else '')")
+    ( cd "$W/repo" && eval "$DEMOENV go test -count=1 $dtags -run '^(${tname})\$' ./$pkg/ " ) > "$W/demo.out" 2>&1; rc=$?
     rm -f "$W/repo/$pkg/zz_seed_demo_test.go"; return $rc
   elif [ -d "$SRC/demo$N" ]; then
     mkdir -p "$W/repo/zz_seed_demo" && cp "$SRC/demo$N"/*.go "$W/repo/zz_seed_demo/" && mkdir -p "$DST/demo" && cp "$SRC/demo$N"/*.go "$DST/demo/"
